@@ -185,6 +185,10 @@ def run(ctx):
     if r2.ok:
         raise InfraError("Lda.tla with LabelMap = plus_pos no longer violates PredictionIsALabel: the model lost its bite")
     ctx.steps["mc_lda_pluspos"]["violated"] = r2.violation
+    r3 = tlc.run("Lda", "MC_Lda_pluspos_every.cfg", workers=WORKERS, timeout=900)
+    ctx.add_tlc(r3, "mc_lda_pluspos_every")
+    if not r3.ok:
+        raise InfraError("Lda.tla: %s fails: the plus_pos mapping is not wrong for every 1-based label vector / not right for every 0-based one\n%s" % (r3.violation, r3.trace_text[:1200]))
     # ---- (C) replay of every enumerated case
     lib = build.build_lib("san")
     exe = build.build_harness("c08", ["c08_drv.c"], lib)
